@@ -19,7 +19,9 @@ def third_party(seed):
             srcs = sorted(p['src'] for p in w.prs() if p['author'] != 'bert-e' and p['src'] in refs)
             dests = sorted(n for n in refs if n.startswith('development/'))
             if kind == 'new_branch' or not srcs:
-                name = 'other/tp' + tag
+                # any name a colleague may pick - including ones that merely look like the robot's namespaces
+                name = r.choice(['other/tp', 'other/tp', 'qa/tp', 'quarantine/tp', 'wip/tp', 'tmpfiles/tp',
+                                 'q-tp', 'w-tp', 'queue/tp', 'user/tp']) + tag
                 w.apply({'e': 'new_branch', 'branch': name, 'from': r.choice(dests), 'label': 'tp' + tag})
                 return {name: w.refs().get(name)}
             src = r.choice(srcs)
